@@ -145,3 +145,27 @@ Fixpoint bools_eqb (a b : list bool) : bool :=
   match a, b with [], [] => true | x :: a', y :: b' => Bool.eqb x y && bools_eqb a' b' | _, _ => false end.
 Definition check_ndel (prog : dprog) (s : shape_t) (ks : list key) (oks : list bool) (after : shape_t) : bool :=
   let '(l, t) := ndel_all prog (shape_tree s) ks in bools_eqb l oks && shape_eqb (tree_shape t) after.
+
+(** Extended histories (SM/VpkApi.v): the same comparison as [check_case] over [xstep] and the translated __exit__ table. *)
+From SV Require Import SM.VpkApi.
+Fixpoint xtrace (et : list exit_row) (cf : vcfg) (st : vstate) (xs : list xop) : option (vstate * list N) :=
+  match xs with
+  | [] => Some (st, [])
+  | x :: r => match xstep et fcrc32 cf st x with
+              | None => None
+              | Some (st', c) => match xtrace et cf st' r with
+                                 | None => None
+                                 | Some (st'', t) => Some (st'', c :: summary cf st' ++ t) end
+              end
+  end.
+Definition check_xcase (et : list exit_row) (cf : vcfg) (xs : list xop) (tr : list N) (fin : list obs_t) (dsk : N * N)
+           (ars : list (N * (N * N))) : N :=
+  match xtrace et cf (init) xs with
+  | None => 1
+  | Some (st, t) =>
+      if negb (nlist_eqb t tr) then 2
+      else if negb (obs_match fin (model_obs cf st)) then 3
+      else if negb (dg_eqb (dg (disk st)) dsk) then 4
+      else if negb (archs_match ars st) then 5
+      else 0
+  end.
